@@ -168,13 +168,14 @@ class NMEA2000Decoder():
             # frames are padded to 8 bytes on the bus: keep only the announced number of payload bytes
             combined_payload = bytes([b for idx in sorted(fast_pgn.frames) for b in fast_pgn.frames[idx][::-1]])[:fast_pgn.payload_length][::-1]
             
+            # Reset the structure for this PGN first: it must not survive when decoding the payload fails
+            del self.data[fast_packet_key]
+
             nmea = None
             if combined_payload is not None:
                 logger.debug(f"Combined Payload (hex): {combined_payload})")
                 nmea = self._call_decode_function(pgn, priority, src, dest, timestamp, combined_payload, source_iso_name, raw_can_data)
 
-            # Reset the structure for this PGN
-            del self.data[fast_packet_key]
             return nmea
         else:
             logger.debug(f"Waiting for {fast_pgn.payload_length - fast_pgn.bytes_stored} more bytes.")
